@@ -768,6 +768,8 @@ func errKind(err error) int {
 		return 2
 	case strings.HasPrefix(s, "unsupported binary arithmetic operator"):
 		return 3
+	case s == "assignment requires lvalue":
+		return 4
 	}
 	return 9
 }
@@ -820,9 +822,6 @@ func observeCode(stream, src string, env []binding, tree *node) codeObs {
 		o.Panic = true
 		o.ErrorText = msg
 		o.Fails = append(o.Fails, "arithm_panics")
-		if strings.Contains(msg, "is *syntax.UnaryArithm, not *syntax.Word") {
-			o.Class = "arith_incdec_operand_not_word"
-		}
 	} else {
 		o.Val = strconv.Itoa(val)
 		o.Err = errKind(err)
@@ -1197,9 +1196,9 @@ func pinnedOracle() []*oCase {
 		mk("arith_invalid_literal_is_zero", "(( x = 1a + 1 ))\necho \"st=$?\"\n"),
 		mk("arith_error_status_in_expansion", "x=1\necho \"v=$(( x = 7 , 1 / 0 ))\"\necho \"st=$?\"\n"),
 		mk("arith_error_status_in_expansion", "y=$(( 2 ** -1 ))\necho \"st=$?\"\n"),
-		mk("arith_array_element_assign_panics", "a=(1 2 3)\n(( a[1] = 5 ))\necho \"st=$? ${a[*]}\"\n"),
-		mk("arith_array_element_assign_panics", "a=(1 2 3)\n(( a[0]++ ))\necho \"st=$? ${a[*]}\"\n"),
-		mk("arith_incdec_operand_not_word", "x=1\n(( ++x++ ))\necho \"st=$?\"\n"),
+		mk("arith_array_element_assign_lost", "a=(1 2 3)\n(( a[1] = 5 ))\necho \"st=$? ${a[*]}\"\n"),
+		mk("arith_array_element_assign_lost", "a=(1 2 3)\n(( a[0]++ ))\necho \"st=$? ${a[*]}\"\n"),
+		mk("", "x=1\n(( ++x++ ))\necho \"st=$?\"\n"),
 		mk("", "a=(4 5 6)\ni=1\necho \"v=$(( a[i] + a[i+1] * a[0] ))\"\necho \"st=$?\"\n"),
 		mk("", "x=3\necho \"v=$(( x++ + ++x )) $(( x-- - --x )) $((x))\"\necho \"st=$?\"\n"),
 		mk("", "echo \"v=$(( 1 ? 2 : 3 ? 4 : 5 )) $(( 0 ? 2 : 0 ? 4 : 5 )) $(( 2 ** 3 ** 2 )) $(( -2 ** 2 )) $(( 7 - 2 - 1 )) $(( 1 << 2 + 1 )) $(( 1 | 2 ^ 3 & 4 ))\"\necho \"st=$?\"\n"),
@@ -1331,16 +1330,11 @@ func modeOracle(o hx.Opts) {
 			case p:
 				ob.Panic = msg
 				ob.Fails = append(ob.Fails, "interp_panics")
-				switch {
-				case strings.Contains(msg, "variable name must not be empty"):
-					ob.Class = "arith_array_element_assign_panics"
-				case strings.Contains(msg, "is *syntax.UnaryArithm, not *syntax.Word"):
-					ob.Class = "arith_incdec_operand_not_word"
-				}
+
 			case out != ob.Bash:
 				ob.Fails = append(ob.Fails, "differs_from_bash")
 				switch {
-				case c.pinned != "" && c.pinned != "arith_array_element_assign_panics" && c.pinned != "arith_incdec_operand_not_word":
+				case c.pinned != "":
 					ob.Class = c.pinned
 				case c.nonLit:
 					ob.Class = "arith_var_holds_expression"
